@@ -205,8 +205,9 @@ type c01Template struct {
 	world *lnmodel.World
 	coin  cashu.Proof
 	coin2 cashu.Proof
-	meltQ [2]string // melt quote ids (external invoices)
-	meltH [2]string
+	meltQ [3]string // melt quote ids: two for external invoices, the third for an invoice of the mint itself
+	meltH [3]string
+	ownQ  string // the mint quote behind the third invoice
 	ksId  string
 	keys  *client.Keyset
 	fee   uint
@@ -236,6 +237,16 @@ func c01MakeTemplate(r *core.Run, tag string) (*c01Template, error) {
 		}
 		t.meltQ[i], t.meltH[i] = q.Id, inv.Hash
 	}
+	// a melt of the mint's own invoice is settled inside the mint: no payment, the mint quote turns PAID
+	own, err := env.RequestMintQuote(50, "")
+	if err != nil {
+		return nil, err
+	}
+	lq, err := env.RequestMeltQuote(own.PaymentRequest, 0)
+	if err != nil {
+		return nil, err
+	}
+	t.meltQ[2], t.meltH[2], t.ownQ = lq.Id, own.PaymentHash, own.Id
 	env.Close()
 	return t, nil
 }
@@ -366,6 +377,10 @@ func c01RunSchedule(r *core.Run, t *c01Template, ops []c01Op, plan lnmodel.PayPl
 			out.meltUse++
 		}
 	}
+	// an internally settled melt makes no payment: its use of the coin shows in the mint quote it paid
+	if st, err := env.MintQuoteDBState(t.ownQ); err == nil && (st == "PAID" || st == "ISSUED") {
+		out.meltUse++
+	}
 	// follow-up: stickiness and no further use
 	y := refcrypto.YHex(t.coin.Secret)
 	uses := out.swapOK + out.meltUse
@@ -450,6 +465,7 @@ func c01Pairs(r *core.Run) {
 	scens := []scen{
 		{name: "swap|swap", ops: []c01Op{{"A", "swap", 0}, {"B", "swap", 0}}, plan: succ},
 		{name: "swap|melt", ops: []c01Op{{"A", "swap", 0}, {"B", "melt", 0}}, plan: succ},
+		{name: "swap|melt-of-own-invoice", ops: []c01Op{{"A", "swap", 0}, {"B", "melt", 2}}, plan: succ},
 	}
 	settled := lnmodel.PayPlan{Answer: lnmodel.APending, Truth: lnmodel.Succeeded}
 	scens = append(scens,
